@@ -711,6 +711,28 @@ def r6_leaf_literals(a, tier, rule_id='C02.R6'):
             if not ok:
                 rep.fail(m.qualname, f'literal:{mname}:{v!r}', f'{mname} for the operand {v!r} prints `{text[:90]}`, which reads back as '
                          f'{got!r}: the generated parser passes another value to ctx.{prim}() than the model does', m.loc)
+    # the MODEL side of the same operands: <Leaf>._parse hands the context primitive the operand itself - the pattern TEXT, not an object compiled
+    # from it (a precompiled regex carries flags and a cache the generated parser, which passes the text, does not have)
+    from ..modelinterp import Bound, Recorder
+    compiled = Stub('tatsu.peg.pattern.Pattern', pattern='<compiled from the text>')
+    for cls_q, fld, prim, values in (('tatsu.peg.pattern.Pattern', 'pattern', 'pattern', ['a+', '^x$', '(?m)^y', '\\d+ ']), ('tatsu.peg.basic.Token', 'token', 'token', ['tok', 'if', '+'])):
+        pm = a.ct.lookup(cls_q, '_parse')
+        if pm is None:
+            raise AnalysisError(f'anchor vanished: {cls_q}._parse')
+        for v in values:
+            ctx = Recorder('ctx')
+            node = Stub(cls_q, **{fld: v, 'ast': v, '_regex': compiled, 'regex': compiled})
+            try:
+                ModelInterp(a).call_bound(Bound(node, pm), [ctx], {})
+            except Unsupported as e:
+                raise AnalysisError(f'cannot interpret {pm.qualname}: {e}') from e
+            calls = [t for t in ctx.trace if t[0] == prim]
+            arg = calls[0][1][0] if calls and calls[0][1] else '<no call>'
+            ok = len(calls) == 1 and type(arg) is str and arg == v
+            rep.add({'model': pm.qualname, 'operand': repr(v), f'ctx.{prim}_receives': repr(arg)[:60], 'ok': ok})
+            if not ok:
+                rep.fail(pm.qualname, f'model-operand:{prim}:{v!r}', f'{pm.qualname} hands ctx.{prim}() {arg!r} for the operand {v!r}: the generated parser passes the text {v!r} '
+                         f'itself (read back above), so the two back-ends match with different ' + ('regular expressions (flags of the precompiled object)' if prim == 'pattern' else 'tokens'), pm.loc)
     return rep
 
 
